@@ -151,14 +151,14 @@ def r4(ctx):
     if mq:
         t = tests[mq[0]].test
         ncase, bad = check_pred(t, lambda e: e['has'] and e['mq'] < e['min'], symbols=['mq', 'min'],
-                                atom_name=lambda x: {'read.mapping_quality': 'mq', 'min_mq': 'min', 'min_mq is not None': 'has'}.get(src(x)))
+                                atom_name=lambda x: {'read.mapping_quality': 'mq', 'min_mq': 'min', 'min_mq is not None': 'has'}.get(src(x)), extra_bools=['has'])
         ctx.counters['abstract_cases'] += ncase
         ctx.emit('C12-R4', not bad, BINCOUNTS, tests[mq[0]], f'MAPQ filter `{src(t)}` over {ncase} cases ' + ('== threshold given and MAPQ < threshold' if not bad else
                  f'differs at {bad[0]["case"]}: a read with MAPQ equal to the threshold is ' + ('dropped' if bad[0]['code'] else 'kept')), key='mapq-threshold', witness=bad[0] if bad else None)
     dd = [t for t in tests if want['duplicate'](t)]
     if dd:
         t = tests[dd[0]].test
-        ncase, bad = check_pred(t, lambda e: e['dedup'] and e['dup'], symbols=[], atom_name=lambda x: {'dedup': 'dedup', 'read.is_duplicate': 'dup'}.get(src(x)))
+        ncase, bad = check_pred(t, lambda e: e['dedup'] and e['dup'], symbols=[], atom_name=lambda x: {'dedup': 'dedup', 'read.is_duplicate': 'dup'}.get(src(x)), extra_bools=['dedup', 'dup'])
         ctx.emit('C12-R4', not bad, BINCOUNTS, tests[dd[0]], f'duplicate filter `{src(t)}` == dedup and duplicate' if not bad else f'differs: {bad[0]}', key='dedup-filter')
     f, loop = _count_loop(ctx)
     calls = [c for c in walk_no_nested(loop) if isinstance(c, ast.Call) and dotted(c.func) == 'read_counts']
